@@ -62,6 +62,7 @@ func (c *Ctx) Step(format string, a ...interface{}) {
 		runtime.ReadMemStats(&m)
 		fmt.Fprintf(c.prog, "MEM heap=%dMB sys=%dMB goroutines=%d\n", m.HeapAlloc>>20, m.Sys>>20, runtime.NumGoroutine())
 	}
+	fmt.Fprintf(c.prog, "T %s\n", time.Now().Format("15:04:05.000"))
 	fmt.Fprintf(c.prog, "START "+format+"\n", a...)
 	c.pmu.Unlock()
 }
